@@ -43,8 +43,17 @@ Two kinds of cases:
                        arrival / done at arrival + latency) and answers, per event, what is observed (digest check,
                        validator vid called with Interest i, handler hid called with Interest i, task of Interest i died).
   kind 'g' with 'swap' (the older form of the same question) is put to the timed model too.
+  kind 'g' pkt 'psize' = the ApplicationParameters are that many octets (hardening 4; put to the model like any 'g').
+  {'kind': 'q', 'salt': n, 'pkts': [{'under': '/g', 'size': octets, 'sig': bool} | {'under': .., 'plain': True}
+                                    | {'of': index of a genuine packet, 'edit': .., 'refresh': bool}, ...],
+   'sessions': [{'fe': .., 'routes': [{'name': '/g', 'h': hid, 'v': None | {'verdict': .., 'lat': ms}}], 'appv': ..,
+                 'steps': [{'p': packet index, 'lp': bool, 'burst': bool}, ...]}, ...]}
+                       hardening 4: a HISTORY of Interests through the gate in one process - genuine Interests and
+                       variants that keep their name (see the section "histories of Interests"), fed to a sequence of
+                       application objects of either front-end.  Oracle only.
 """
 import asyncio
+import collections
 import hashlib
 
 from apphelp import AppRig
@@ -206,7 +215,16 @@ RULE = ('(a) the event histories of C03 (incl. its hardening dimensions: paramet
         'every verdict incl. the raising ones and a validator that answers without yielding; two Interests in flight under '
         'one prefix whose validators answer in the opposite order with different verdicts; wrong / absent digests; a '
         'registration without callable written in place later; random histories of 3..10 attach / detach / Interest entries '
-        'over four nested prefixes. non-trivial = a '
+        'over four nested prefixes; (e) the SIZE of the digest-covered part (ApplicationParameters of 0 .. 70000 octets, '
+        'straddling 253 / 1 Ki / 2 Ki / 4 Ki / 8 Ki / 64 Ki) for the right digest, a wrong one and its near misses on every kind of '
+        'route (put to the model), and HISTORIES of Interests in one process (oracle only): a genuine parameterised / signed '
+        'Interest and variants that KEEP ITS NAME, digest component included, with other parameters (all / one bit at the '
+        'front, middle, end / one octet shorter, longer / emptied), one bit of the signature value, another SignatureInfo, '
+        'the signature stripped or added, only another nonce (still right), near misses of the digest component, or the '
+        'digest computed again after the edit (right digest, stale DigestSha256 signature) - fed in any order, repeated, '
+        'bare or in LpPackets, one per loop turn or several in one, to one application object or to a sequence of new ones '
+        '(either front-end, new event loop, other routing table, scripted / missing / the library\'s default validators): '
+        'every Interest of every session is judged by what the packet itself says, whatever passed the gate before it. non-trivial = a '
         'history in which some validator ran, or a gate case with parameters or signature; distinct = distinct cases')
 
 V2_ALL = ['PASS', 'ALLOW_BYPASS', 'FAIL', 'TIMEOUT', 'SILENCE', 'RAISE_TIMEOUT', 'RAISE_OTHER'] + list(c03.B_VALUES)
@@ -704,6 +722,495 @@ def oracle_timed(case, impl):
     return None
 
 
+# ------------------------------------------------------------------------------------- histories of Interests (kind 'q')
+# hardening 4: the digest clause is a statement about EVERY incoming Interest, whatever went through the gate before it
+# in this process.  A case is a list of PACKETS - genuine ones (made by the library's encoder; ApplicationParameters of
+# 0 .. 64 Ki octets, DigestSha256-signed or not) and VARIANTS of them that keep the name, digest component included,
+# and change something the digest covers (other parameters / one bit of them at the front, middle, end / one octet
+# shorter or longer / emptied; one bit of the signature value; another SignatureInfo; the signature stripped / added),
+# or only the nonce (not covered: still right), or the digest component itself (near misses); 'refresh' = the digest
+# component is computed again after the edit (right digest, the DigestSha256 signature no longer valid) - and a list of
+# SESSIONS: each one a new application object (either front-end) on a new event loop with its own routing table and
+# scripted validators, into which the packets are fed in a given order, repeated, bare or in an LpPacket, one per loop
+# turn or several in one turn.  All sessions of a case run in one process, one after the other.  Oracle only.
+Q_SIZES = [0, 1, 5, 200, 252, 253, 1000, 1020, 1024, 2044, 2048, 4096, 8188, 8192, 65531, 65536, 70000]
+Q_EDITS_ANY = ['params:other', 'params:bit:first', 'params:bit:mid', 'params:bit:last', 'params:trunc', 'params:ext',
+               'params:empty', 'nonce', 'digest:last', 'digest:first', 'digest:prefix:31', 'digest:ext:1', 'digest:empty']
+Q_EDITS_SIGNED = ['sigvalue:bit', 'siginfo:other', 'sig:stripped']
+Q_EDITS_UNSIGNED = ['sig:added']
+Q_PREFIXES = ['/', '/g', '/g/k', '/q']
+Q_UNDER = ['/g', '/g/k', '/q', '/g']
+_q_fresh = [0]
+
+
+def _q_fill(salt, k, n):
+    return hashlib.shake_256(b'%d-%d' % (salt, k)).digest(n) if n else b''
+
+
+def _q_name(case, k, under):
+    return under.rstrip('/') + '/c%d-%d' % (case['salt'], k)
+
+
+def _q_edit(wire, edit, other):
+    """an Interest that differs from `wire` as `edit` says; the name is kept octet for octet (except 'digest:*')"""
+    if edit.startswith('digest:'):
+        return _set_digest(wire, edit[len('digest:'):])
+    if edit == 'nonce':
+        return wire
+    siginfo = _tlv(0x2c, _tlv(0x1b, b'\x00'))
+
+    def ed(items):
+        out = []
+        for t, v in items:
+            if t == 0x24 and edit.startswith('params:'):
+                what = edit[len('params:'):]
+                if what == 'other' and v:
+                    v2 = other(len(v))
+                    v = v2 if v2 != v else bytes([v[0] ^ 1]) + v[1:]
+                elif what.startswith('bit:') and v:
+                    i = {'first': 0, 'mid': len(v) // 2, 'last': len(v) - 1}[what[4:]]
+                    v = v[:i] + bytes([v[i] ^ 0x10]) + v[i + 1:]
+                elif what == 'trunc' and v:
+                    v = v[:-1]
+                elif what == 'empty' and v:
+                    v = b''
+                else:                       # 'ext', and everything else on parameters of length zero
+                    v = v + b'\x00'
+            elif t == 0x2e and edit == 'sigvalue:bit':
+                v = v[:-1] + bytes([v[-1] ^ 0x01])
+            elif t == 0x2c and edit == 'siginfo:other':
+                v = v + _tlv(0x1c, _tlv(0x07, _tlv(0x08, b'k')))
+            elif t in (0x2c, 0x2e) and edit == 'sig:stripped':
+                continue
+            out.append((t, v))
+        if edit == 'sig:added':
+            out += [(0x2c, _tlv(0x1b, b'\x00')), (0x2e, bytes(range(1, 33)))]
+        return out
+    w = _rewrite(wire, 0x05, ed)
+    assert w != wire, edit
+    return w
+
+
+def _q_set(wire, nonce=None, refresh=False):
+    """write the nonce; compute the digest component again (from the packet format, not by the library)"""
+    def ed(items):
+        if nonce is not None:
+            items = [(t, nonce.to_bytes(4, 'big') if t == 0x0a else v) for t, v in items]
+        if refresh:
+            k = [t for t, _ in items].index(0x24)
+            d = hashlib.sha256(b''.join(_tlv(t, v) for t, v in items[k:])).digest()
+            comps = [(t, d if t == 0x02 else v) for t, v in _items(items[0][1])]
+            items = [(0x07, b''.join(_tlv(t, v) for t, v in comps))] + items[1:]
+        return items
+    return _rewrite(wire, 0x05, ed)
+
+
+def _q_facts(wire):
+    """what the PACKET FORMAT says about an Interest, read with the harness's own TLV reader: does it carry
+    ApplicationParameters / an InterestSignatureInfo, is its ParametersSha256DigestComponent the SHA-256 of everything
+    from ApplicationParameters to the end, is its InterestSignatureValue the SHA-256 of the signed portion (name without
+    the digest component, ApplicationParameters .. InterestSignatureInfo)"""
+    (t, body), = _items(wire)
+    assert t == 0x05
+    items = _items(body)
+    assert items[0][0] == 0x07
+    comps = _items(items[0][1])
+    types_ = [a for a, _ in items]
+    has_params, has_sig = 0x24 in types_, 0x2c in types_
+    covered = b''
+    if has_params:
+        covered = b''.join(_tlv(a, b) for a, b in items[types_.index(0x24):])
+    dig = [v for a, v in comps if a == 0x02]
+    f = {'params': has_params, 'sig': has_sig, 'needs': has_params or has_sig,
+         'digest_ok': bool(has_params and len(dig) == 1 and dig[0] == hashlib.sha256(covered).digest()),
+         'covered': len(covered), 'nonce': int.from_bytes(dict(items)[0x0a], 'big'), 'sig_valid': False, 'digest_sig': False}
+    if has_sig and has_params and 0x2e in types_:
+        k, e = types_.index(0x24), types_.index(0x2e)
+        signed = b''.join(_tlv(a, b) for a, b in comps if a != 0x02) + b''.join(_tlv(a, b) for a, b in items[k:e])
+        f['sig_valid'] = dict(items)[0x2e] == hashlib.sha256(signed).digest()
+        f['digest_sig'] = dict(items)[0x2c] == _tlv(0x1b, b'\x00')
+    return f, hashlib.sha1(_tlv(0x07, items[0][1]) + b'|' + covered).hexdigest()
+
+
+def q_packets(case):
+    """[(wire, facts)] of a case, facts['cls'] = the class of packets with the same name and digest-covered part"""
+    enc, _, _, Signer = c03._lib()
+    salt, out, keys = case['salt'], [], {}
+    for k, p in enumerate(case['pkts']):
+        nonce = 1000 + k
+        if 'of' in p:
+            base = out[p['of']][0]
+            w = _q_edit(base, p['edit'], lambda n: _q_fill(salt, 500 + k, n))
+            w = _q_set(w, nonce, bool(p.get('refresh')))
+        else:
+            par = enc.InterestParam(nonce=nonce, lifetime=4000)
+            name = _q_name(case, k, p['under'])
+            if p.get('plain'):
+                w = bytes(enc.make_interest(name, par))
+            else:
+                w = bytes(enc.make_interest(name, par, _q_fill(salt, k, p['size']), signer=Signer() if p['sig'] else None))
+        f, key = _q_facts(w)
+        f['cls'] = keys.setdefault(key, len(keys))
+        b = p['of'] if 'of' in p else k
+        f['name'] = _q_name(case, b, case['pkts'][b]['under'])
+        if 'of' not in p and not p.get('plain'):
+            # the encoder of the library and the harness's reading of the packet format agree on a genuine packet
+            assert f['digest_ok'] and f['params'] and f['sig'] == bool(p['sig']) and (f['sig_valid'] or not p['sig']), p
+        if 'of' in p:
+            assert f['nonce'] == nonce and f['digest_ok'] == (p['edit'] == 'nonce' or bool(p.get('refresh'))), p
+        out.append((w, f))
+    return out, keys
+
+
+def _q_variants(rng, pkts, b, signed, n):
+    for _ in range(n):
+        edit = rng.choice(Q_EDITS_ANY + Q_EDITS_ANY[:7] + (Q_EDITS_SIGNED * 2 if signed else Q_EDITS_UNSIGNED))
+        v = {'of': b, 'edit': edit}
+        if rng.random() < 0.15 and not edit.startswith('digest:') and edit != 'nonce':
+            v['refresh'] = True
+        pkts.append(v)
+
+
+def _q_routes(rng, fe, unders, accept=0.6):
+    verdicts = V2_ALL if fe == 'v2' else V1_ALL
+    routes, hid = [], 1
+    names = sorted(set(unders) | set(n for n in Q_PREFIXES if rng.random() < 0.25))
+    for n in names:
+        if rng.random() < 0.08:
+            continue
+        r = rng.random()
+        if r < accept:
+            v = {'verdict': rng.choice(['PASS', 'PASS', 'ALLOW_BYPASS'] if fe == 'v2' else ['PASS', 'PASS', 'ONE']),
+                 'lat': rng.choice([0, 0, 7, 30])}
+        elif r < accept + 0.15:
+            v = None
+        else:
+            v = {'verdict': rng.choice(verdicts), 'lat': rng.choice([0, 0, 7, 30])}
+        routes.append({'name': n, 'h': hid, 'v': v})
+        hid += 1
+    return routes
+
+
+def gen_seq(rng):
+    """a random history of Interests through the gate"""
+    case = {'kind': 'q', 'salt': rng.randrange(1 << 30), 'pkts': [], 'sessions': []}
+    pkts = case['pkts']
+    bases = []
+    for _ in range(rng.choice([1, 1, 1, 2])):
+        size = rng.choice(Q_SIZES)
+        if size >= 1000 and rng.random() < 0.5:
+            size += rng.randint(-45, 4)              # straddle the round numbers, header octets included
+        b = len(pkts)
+        signed = rng.random() < 0.45
+        pkts.append({'under': rng.choice(Q_UNDER), 'size': size, 'sig': signed})
+        bases.append(b)
+        _q_variants(rng, pkts, b, signed, rng.randint(1, 3))
+    if rng.random() < 0.2:
+        pkts.append({'under': rng.choice(Q_UNDER), 'plain': True})
+    unders = [p['under'] for p in pkts if 'under' in p]
+    # the order: mostly a genuine packet first, then its variants; sometimes anything
+    order = list(range(len(pkts)))
+    if rng.random() < 0.25:
+        rng.shuffle(order)
+    for _ in range(rng.randint(0, 2)):
+        order.insert(rng.randint(0, len(order)), rng.choice(order))          # retransmissions
+    cuts = sorted(rng.sample(range(1, len(order)), min(len(order) - 1, rng.choice([0, 0, 1, 1, 2]))))
+    parts = [order[a:b] for a, b in zip([0] + cuts, cuts + [len(order)])]
+    if rng.random() < 0.4:
+        parts.append(list(order))                    # everything once more, in another application
+    for part in parts:
+        fe = rng.choice(['v2', 'v1'])
+        s = {'fe': fe, 'routes': _q_routes(rng, fe, unders), 'steps': []}
+        if fe == 'v1' and rng.random() < 0.3:
+            s['appv'] = {'verdict': rng.choice(['PASS', 'PASS', 'FAIL', 'NONE', 'RAISE_OTHER']), 'lat': rng.choice([0, 7])}
+        for p in part:
+            st = {'p': p}
+            if rng.random() < 0.15:
+                st['lp'] = True
+            if rng.random() < 0.2:
+                st['burst'] = True                   # the next packet arrives in the same loop turn
+            s['steps'].append(st)
+        case['sessions'].append(s)
+    return case
+
+
+def seq_scenarios(thorough=False):
+    """size of the digest-covered part x what the later Interest of the same name changed x same application object /
+    another one of the same / of the other front-end x route with an accepting validator, the library's default one
+    (legacy), none: the genuine Interest first, then the variant, then the genuine one again"""
+    sizes = [0, 5, 1020, 2044, 8192, 65536] if not thorough else Q_SIZES
+    salt = n_combo = 0
+    for size in sizes:
+        for signed in (False, True):
+            edits = ['params:other', 'params:bit:last', 'nonce', 'digest:last'] + (['sigvalue:bit', 'siginfo:other'] if signed else ['sig:added'])
+            if thorough:
+                edits = Q_EDITS_ANY + (Q_EDITS_SIGNED if signed else Q_EDITS_UNSIGNED)
+            for edit in edits:
+                combos = [('v2', None), ('v1', None), ('v2', 'v1'), ('v1', 'v2'), ('v2', 'v2'), ('v1', 'v1')]
+                if not thorough:
+                    # quick: four of the six per (size, edit), the pair left out rotates
+                    n_combo += 1
+                    combos = [c for k, c in enumerate(combos) if (k - n_combo) % 3 != 0]
+                for fe_a, fe_b in combos:
+                    for refresh in ((False, True) if signed and edit in ('params:other', 'sigvalue:bit') else (False,)):
+                        salt += 1
+                        pk = [{'under': '/g', 'size': size, 'sig': signed}, {'of': 0, 'edit': edit}]
+                        if refresh:
+                            pk[1]['refresh'] = True
+
+                        def routes(fe):
+                            acc = {'verdict': 'PASS', 'lat': 0}
+                            # legacy + signed: the route has no validator of its own, the library's default one decides
+                            return [{'name': '/g', 'h': 1, 'v': None if (fe == 'v1' and signed and salt % 2) else acc},
+                                    {'name': '/', 'h': 2, 'v': None}]
+                        if fe_b is None:
+                            ss = [{'fe': fe_a, 'routes': routes(fe_a), 'steps': [{'p': 0}, {'p': 1}, {'p': 0}]}]
+                        else:
+                            ss = [{'fe': fe_a, 'routes': routes(fe_a), 'steps': [{'p': 0}]},
+                                  {'fe': fe_b, 'routes': routes(fe_b), 'steps': [{'p': 1}, {'p': 0}]}]
+                        yield {'kind': 'q', 'salt': 10 ** 9 + salt, 'pkts': pk, 'sessions': ss}
+
+
+def size_gate_cases(fe, thorough=False):
+    """kind 'g' (one Interest, put to the model as before) with ApplicationParameters of 'psize' octets: digest right /
+    wrong / a near miss, signed or not, on the routes that matter"""
+    routes = ['none', {'validator': None}, {'validator': {'verdict': 'PASS', 'lat': 0}}, {'validator': {'verdict': 'FAIL', 'lat': 0}}]
+    for psize in ([1020, 2048, 8192, 65536] if not thorough else [252, 253, 1000, 1020, 1024, 2048, 4096, 8192, 65531, 65536, 70000]):
+        for sig in (False, True):
+            for d in (True, False, 'last', 'prefix:31', 'ext:1'):
+                p = {'params': True, 'sig': sig, 'digest_ok': d is True, 'sig_valid': sig, 'psize': psize}
+                if isinstance(d, str):
+                    p['dvar'] = d
+                for r in routes:
+                    yield {'kind': 'g', 'fe': fe, 'pkt': p, 'route': r}
+
+
+def _q_obs_key(enc, name, sig):
+    cov = sig.digest_covered_part if sig is not None and sig.digest_covered_part else []
+    return hashlib.sha1(bytes(enc.Name.to_bytes(name)) + b'|' + b''.join(bytes(b) for b in cov)).hexdigest()
+
+
+def run_seq(case):
+    enc, types, ndnlp, _ = c03._lib()
+    pk, keys = q_packets(case)
+    by_nonce = {f['nonce']: k for k, (_, f) in enumerate(pk)}
+    sessions = []
+    for s in case['sessions']:
+        fe, log = s['fe'], []
+        with AppRig(fe, t0=c03.T0) as rig:
+            loop = rig.loop
+
+            def now():
+                return int(round((loop.time() - c03.T0) * 1000))
+
+            def script(vid, spec):
+                async def body(name, sig):
+                    log.append(['v', vid, keys.get(_q_obs_key(enc, name, sig), -1), now()])
+                    if spec['lat']:
+                        await asyncio.sleep(spec['lat'] / 1000.0)
+                    if spec['verdict'] == 'RAISE_TIMEOUT':
+                        raise TimeoutError()
+                    if spec['verdict'] == 'RAISE_OTHER':
+                        raise c03.ScriptedError()
+                    return spec['verdict']
+                if fe == 'v2':
+                    async def val(name, sig, ctx):
+                        v = await body(name, sig)
+                        return c03.B_VALUES[v] if v in c03.B_VALUES else types.ValidResult[v]
+                else:
+                    async def val(name, sig):
+                        return c03.V1_TRUTH[await body(name, sig)]
+                return val
+
+            def handler(hid):
+                if fe == 'v2':
+                    def h(name, app_param, reply, context):
+                        log.append(['h', hid, by_nonce.get(context['int_param'].nonce, -1), now()])
+                else:
+                    def h(name, param, app_param):
+                        log.append(['h', hid, by_nonce.get(param.nonce, -1), now()])
+                return h
+            if fe == 'v1':
+                if s.get('appv'):
+                    rig.app.int_validator = script(AV, s['appv'])
+                else:
+                    # the library's own default validator: what it is asked and what it answers is observed
+                    dflt = rig.app.int_validator
+
+                    async def logging_default(name, sig):
+                        cls = keys.get(_q_obs_key(enc, name, sig), -1)
+                        log.append(['v', AV, cls, now()])
+                        r = await dflt(name, sig)
+                        log.append(['r', AV, cls, now(), bool(r)])
+                        return r
+                    rig.app.int_validator = logging_default
+            for r in s['routes']:
+                v = script(100 + r['h'], r['v']) if r['v'] is not None else None
+                if fe == 'v2':
+                    rig.app.attach_handler(r['name'], handler(r['h']), v)
+                else:
+                    rig.app.set_interest_filter(r['name'], handler(r['h']), v)
+            t = 10
+            loop.advance(c03.T0 + t / 1000.0)
+            rxs = []
+            for st in s['steps']:
+                wire = pk[st['p']][0]
+                if st.get('lp'):
+                    wire = c03.lp_wrap(ndnlp, wire)
+                wire = bytes(bytearray(wire))            # every reception has its own buffer
+                rxs.append(loop.create_task(rig.face.callback(rig._typ(wire), wire)))
+                if st.get('burst'):
+                    continue
+                loop.settle()
+                t += 50
+                loop.advance(c03.T0 + t / 1000.0)
+            loop.settle()
+            loop.advance(c03.T0 + (t + 500) / 1000.0)
+            errs = [list(e) for e in loop.errors if e[0] not in ('ScriptedError', 'TimeoutError')]
+            for k, rx in enumerate(rxs):
+                if not rx.done():
+                    errs.append(['NeverFinished', 'reception task %d' % k])
+                elif not rx.cancelled() and rx.exception() is not None:
+                    errs.append([type(rx.exception()).__name__, 'reception task %d' % k])
+            del rxs
+        sessions.append({'log': log, 'loop_errors': errs})
+    return {'q': sessions, 'facts': [f for _, f in pk]}
+
+
+def oracle_seq(case, impl):
+    """the statement on every Interest of every session, whatever came before it.  The facts about a packet (carries
+    parameters / a signature, digest right, DigestSha256 value right) were read off the packet by the harness."""
+    facts = impl['facts']
+    for si, (s, obs) in enumerate(zip(case['sessions'], impl['q'])):
+        fe, where = s['fe'], f'session {si} ({s["fe"]})'
+        if obs['loop_errors']:
+            return f"{where}: internal error escaped a callback: {obs['loop_errors'][0][0]}"
+        regs = {r['h']: r['v'] for r in s['routes']}
+        sent = collections.Counter(st['p'] for st in s['steps'])
+        sent_cls = set(facts[p]['cls'] for p in sent)
+        n_h = collections.Counter()
+        vtimes = {}                          # (class, validator) -> instants it was consulted, not yet used by a delivery
+        answers = {}                         # class -> what the library's default validator answered
+        for ent in obs['log']:
+            kind, ident, who, t = ent[:4]
+            if kind == 'r':
+                answers.setdefault(who, []).append(ent[4])
+                continue
+            if kind == 'v':
+                if who not in sent_cls:
+                    return f'{where}: a validator was consulted with a name / covered part that no Interest of this session has'
+                bad = [p for p in sent if facts[p]['cls'] == who and facts[p]['needs'] and not facts[p]['digest_ok']]
+                if bad:
+                    return (f'{where}: an Interest with ApplicationParameters or signature and a wrong parameters digest '
+                            f'was passed on to the validator (packet {bad[0]})')
+                if all(not facts[p]['needs'] for p in sent if facts[p]['cls'] == who):
+                    return f'{where}: a validator was consulted for a plain Interest'
+                vtimes.setdefault((who, ident), []).append(t)
+                continue
+            p = who
+            if p not in sent:
+                return f'{where}: a handler was invoked with an Interest that was not received in this session'
+            f = facts[p]
+            n_h[p] += 1
+            if n_h[p] > sent[p]:
+                return f'{where}: more than one handler invocation for one Interest (packet {p})'
+            if f['needs'] and not f['digest_ok']:
+                return (f'{where}: an Interest with ApplicationParameters or signature and a wrong parameters digest was '
+                        f'delivered to the handler (packet {p}: {_q_describe(case, p)})')
+            if not (f['needs'] if fe == 'v2' else f['sig']):
+                continue                      # plain; legacy: unsigned parameterised Interests are outside the validator clause
+            spec = regs[ident]
+            if spec is None and fe == 'v2':
+                return (f'{where}: an Interest that requires validation reached handler {ident}, which was registered '
+                        'without validator (= rejection)')
+            vid = AV if spec is None else 100 + ident
+            calls = vtimes.get((f['cls'], vid), [])
+            if not calls or calls[0] > t:
+                return (f'{where}: packet {p} reached handler {ident} without the validator in force being consulted '
+                        'with it first')
+            t_call = calls.pop(0)
+            if spec is None and not s.get('appv'):
+                # the library's default validator (DigestSha256 checker): what it answered; and it cannot accept a
+                # DigestSha256 value that is not the SHA-256 of the signed portion
+                if not any(answers.get(f['cls'], [])):
+                    return f'{where}: packet {p} reached its handler although the default validator did not accept it'
+                if f['digest_sig'] and not f['sig_valid']:
+                    return (f'{where}: packet {p} reached its handler although its DigestSha256 signature value is wrong '
+                            'and the default validator is in force')
+                continue
+            spec = spec if spec is not None else s['appv']
+            if not _accepting(fe, spec['verdict']):
+                return (f'{where}: packet {p} reached its handler although the validator in force did not accept it '
+                        f'({spec["verdict"]})')
+            if t < t_call + spec['lat']:
+                return f'{where}: packet {p} reached its handler before its validator had answered'
+        for p in sent:
+            f = facts[p]
+            if not f['needs'] and n_h[p] < sent[p] and any((f['name'] + '/').startswith(r['name'].rstrip('/') + '/')
+                                                           for r in s['routes']):
+                return f'{where}: a plain Interest was not delivered (packet {p})'
+    return None
+
+
+
+def _q_describe(case, p):
+    spec = case['pkts'][p]
+    if 'of' in spec:
+        return f"keeps the name of packet {spec['of']}, {spec['edit']}" + (', digest recomputed' if spec.get('refresh') else '')
+    return 'genuine'
+
+
+def _q_bucket(n):
+    for b in (64, 1024, 2048, 8192, 65536):
+        if n < b:
+            return '<%d' % b
+    return '>=65536'
+
+
+def tags_seq(case, impl):
+    t = ['seq', 'seq:sessions:%d' % len(case['sessions'])]
+    facts = impl['facts']
+    for f in facts:
+        if f['needs']:
+            t.append('seq:covered' + _q_bucket(f['covered']))
+    seen = set()
+    for s, obs in zip(case['sessions'], impl['q']):
+        t.append('seq-fe:' + s['fe'])
+        for st in s['steps']:
+            spec = case['pkts'][st['p']]
+            if 'of' in spec and spec['of'] in seen and not spec.get('refresh'):
+                t.append('seq:after-the-genuine-one:' + spec['edit'].split(':')[0]
+                         + (':large' if facts[st['p']]['covered'] >= 1024 else ''))
+            seen.add(st['p'])
+        for ent in obs['log']:
+            t.append('seq-obs:' + ent[0])
+    return t
+
+
+def shrink_seq(case):
+    """fewer sessions, fewer steps, no LpPacket, no burst - each candidate under names (and parameters) this process has
+    not seen yet, so that what still fails does not owe it to an earlier run"""
+    def fresh(c):
+        _q_fresh[0] += 1
+        return dict(c, salt=(case['salt'] + 7919 * _q_fresh[0]) % (1 << 30) + (1 << 30))
+    ss = case['sessions']
+    for k in range(len(ss)):
+        if len(ss) > 1:
+            yield fresh(dict(case, sessions=ss[:k] + ss[k + 1:]))
+    for k, s in enumerate(ss):
+        for j in range(len(s['steps'])):
+            if len(s['steps']) > 1:
+                yield fresh(dict(case, sessions=ss[:k] + [dict(s, steps=s['steps'][:j] + s['steps'][j + 1:])] + ss[k + 1:]))
+    for k, s in enumerate(ss):
+        if len(s['routes']) > 1:
+            for j in range(len(s['routes'])):
+                yield fresh(dict(case, sessions=ss[:k] + [dict(s, routes=s['routes'][:j] + s['routes'][j + 1:])] + ss[k + 1:]))
+        for j, st in enumerate(s['steps']):
+            if st.get('lp') or st.get('burst'):
+                yield fresh(dict(case, sessions=ss[:k] + [dict(s, steps=s['steps'][:j] + [{'p': st['p']}] + s['steps'][j + 1:])]
+                                 + ss[k + 1:]))
+
+
 def cases(rng, tier):
     for fe in ('v2', 'v1'):
         for c in gate_cases(fe, tier != 'quick'):
@@ -716,6 +1223,14 @@ def cases(rng, tier):
         yield gen_timed(rng, 'v2' if k % 2 == 0 else 'v1')
     for c in data_cases(tier != 'quick'):
         yield c
+    # hardening 4: sizes of the digest-covered part (kind 'g', put to the model), histories of Interests (kind 'q')
+    for fe in ('v2', 'v1'):
+        for c in size_gate_cases(fe, tier != 'quick'):
+            yield c
+    for c in seq_scenarios(tier != 'quick'):
+        yield c
+    for k in range(260 if tier == 'quick' else 6000):
+        yield gen_seq(rng)
     n = 900 if tier == 'quick' else 15000
     m = 400 if tier == 'quick' else 6000
     for k in range(n + m):
@@ -747,6 +1262,10 @@ def shrink(case):
         for k in ('raw', 'lp'):
             if case[k]:
                 yield dict(case, **{k: False})
+        return
+    if case['kind'] == 'q':
+        for c in shrink_seq(case):
+            yield c
         return
     if case['kind'] == 't':
         line = case['line']
@@ -935,6 +1454,8 @@ def _build_interest(pkt):
     if not pkt['params'] and not pkt['sig']:
         return bytes(enc.make_interest(name, par))
     payload = b'' if pkt['params'] == 'empty' else b'param'
+    if pkt.get('psize') is not None and pkt['params'] is True:
+        payload = hashlib.shake_256(b'psize').digest(pkt['psize'])
     if pkt['params'] and not pkt['sig']:
         w = bytes(enc.make_interest(name, par, payload))
     elif pkt['params'] and pkt['sig']:
@@ -1204,6 +1725,8 @@ def run_impl(case):
         return run_data(case)
     if case['kind'] == 't':
         return run_timed(case)
+    if case['kind'] == 'q':
+        return run_seq(case)
     return run_gate(case)
 
 
@@ -1214,7 +1737,7 @@ def model_line(case, impl):
             return None
         toks = c03.model_events(case)
         return f"C05 h {case['fe']} {';'.join(toks) if toks else '.'}"
-    if case['kind'] == 'd':
+    if case['kind'] in ('d', 'q'):
         return None
     if case['kind'] == 't':
         return timed_model_line(case)
@@ -1403,12 +1926,16 @@ def oracle(case, impl):
         return oracle_gate(case, impl)
     if case['kind'] == 'd':
         return oracle_data(case, impl)
+    if case['kind'] == 'q':
+        return oracle_seq(case, impl)
     return c03.oracle_common(case, impl, strict=True)
 
 
 def nontrivial(case, impl):
     if case['kind'] == 'd':
         return True
+    if case['kind'] == 'q':
+        return any(f['needs'] for f in impl['facts'])
     if case['kind'] == 't':
         return any(e['op'] == 'interest' and (e['pkt']['params'] or e['pkt']['sig']) for e in case['line'])
     if case['kind'] == 'g':
@@ -1420,6 +1947,8 @@ def tags(case, impl):
     if case['kind'] == 'd':
         return ['data-default', 'sigvalue:' + (case['svar'] or 'right').split(':')[0],
                 'appv:' + (case['appv']['verdict'] if case['appv'] else '-'), 'res:' + str(impl['res'][:2])]
+    if case['kind'] == 'q':
+        return tags_seq(case, impl)
     if case['kind'] == 't':
         t = ['timed', 'timed-fe:' + case['fe']]
         ents = [e for e in case['line'] if e['op'] == 'interest']
@@ -1449,6 +1978,8 @@ def tags(case, impl):
                      + ('no-value' if p['shape']['value'] is None else p['shape']['value'] + '-value'))
         if p.get('dvar'):
             t.append('digest:' + p['dvar'].split(':')[0])
+        if p.get('psize') is not None:
+            t.append('gate:params-octets' + _q_bucket(p['psize']))
         if p.get('svar'):
             t.append('sigvalue:' + p['svar'].split(':')[0])
         if isinstance(r, dict) and r.get('appv'):
@@ -1474,6 +2005,9 @@ def finding_key(case, impl, why):
     if case['kind'] == 'g':
         w = re.sub(r'[^a-zA-Z]+', '-', why).strip('-').lower()
         return f"gate-{case['fe']}-{w[:70]}"
+    if case['kind'] == 'q':
+        w = re.sub(r'\(.*', '', re.sub(r'^session \d+ \(v\d\): ', '', why))
+        return 'seq-' + re.sub(r'[^a-zA-Z]+', '-', w).strip('-').lower()[:70]
     if case['kind'] == 't':
         w = re.sub(r'[^a-zA-Z]+', '-', re.sub(r'^Interest \d+: ', '', why)).strip('-').lower()
         return f"timed-{case['fe']}-{w[:70]}"
